@@ -326,7 +326,29 @@ def run(ctx):
                            'entropy is drawn with %s (not a bit/byte draw of stated size)' % n.func.attr, where)
                 continue
             else:
-                v = T.opaque('receiver %s is not a module-level name' % r)
+                # a local bound exactly once to `<default source> if prm is None else prm` (either arm order): the default arm is
+                # judged here, what a caller hands in is judged like a generator parameter
+                binds = [a_ for a_ in ast.walk(fi.node) if isinstance(a_, ast.Assign) and len(a_.targets) == 1
+                         and isinstance(a_.targets[0], ast.Name) and a_.targets[0].id == name]
+                v = None
+                if '.' not in r and len(binds) == 1 and isinstance(binds[0].value, ast.IfExp):
+                    ie = binds[0].value
+                    t_ = ie.test
+                    if isinstance(t_, ast.Compare) and len(t_.ops) == 1 and isinstance(t_.ops[0], (ast.Is, ast.IsNot)) \
+                            and isinstance(t_.left, ast.Name) and t_.left.id in fi.params \
+                            and isinstance(t_.comparators[0], ast.Constant) and t_.comparators[0].value is None:
+                        prm = t_.left.id
+                        none_arm, other = (ie.body, ie.orelse) if isinstance(t_.ops[0], ast.Is) else (ie.orelse, ie.body)
+                        d_ = _param_default(fi, prm)
+                        if isinstance(other, ast.Name) and other.id == prm and isinstance(d_, ast.Constant) and d_.value is None:
+                            from ..evalr import Frame
+                            try:
+                                v = Evaluator(p, 'ecdsa').expr(none_arm, Frame(fi, {}, Facts(), fi.module, fi.cls, 0))
+                            except Exception:
+                                v = None
+                            _local_receiver(p, ob, fi, prm, where)
+                if v is None:
+                    v = T.opaque('receiver %s is not a module-level name' % r)
             ok = T.is_op(v, 'CSPRNG') or (T.tag(v) == 'ext' and v[1] in ('secrets', 'os'))
             ob.require(ok, 'the entropy source `%s` used in %s is not the operating system CSPRNG' % (r, fi.qual[len(PKG) + 1:]), where,
                        expected='random.SystemRandom() / secrets / os.urandom', found=T.show(v))
